@@ -1,15 +1,16 @@
 package main
 
 import (
-	"go/types"
-	"sync/atomic"
 	"encoding/json"
 	"flag"
 	"fmt"
+	"go/types"
 	"os"
 	"path/filepath"
 	"sort"
 	"strings"
+	"sync"
+	"sync/atomic"
 	"time"
 
 	"golang.org/x/tools/go/packages"
@@ -22,40 +23,40 @@ type PropConfig struct {
 }
 
 var (
-	flagRepo      = flag.String("repo", "/repo", "repository root")
-	flagVerif     = flag.String("verif", "/verif", "verif root")
-	flagProp      = flag.String("prop", "", "property id")
-	flagTier      = flag.String("tier", "quick", "quick|thorough")
-	flagUnit      = flag.String("unit", "", "only units whose name contains this")
-	flagDump      = flag.String("dump", "", "dump SMT queries of obligations whose name contains this into dir")
-	flagPkgs      = flag.String("pkgs", "", "comma separated package patterns (overrides props.json)")
-	flagTimeout   = flag.Int("timeout", 10, "solver timeout (s)")
-	flagJSON      = flag.String("json", "", "write raw result json here")
-	flagMaxPaths  = flag.Int("maxpaths", 4000, "path cap per unit")
-	flagVerbose   = flag.Bool("v", false, "verbose")
-	flagOverlay   = flag.String("overlay", "", "extra overlay json (mutants)")
-	flagNoCover   = flag.Bool("nocover", false, "skip vacuity checks")
+	flagRepo       = flag.String("repo", "/repo", "repository root")
+	flagVerif      = flag.String("verif", "/verif", "verif root")
+	flagProp       = flag.String("prop", "", "property id")
+	flagTier       = flag.String("tier", "quick", "quick|thorough")
+	flagUnit       = flag.String("unit", "", "only units whose name contains this")
+	flagDump       = flag.String("dump", "", "dump SMT queries of obligations whose name contains this into dir")
+	flagPkgs       = flag.String("pkgs", "", "comma separated package patterns (overrides props.json)")
+	flagTimeout    = flag.Int("timeout", 10, "solver timeout (s)")
+	flagJSON       = flag.String("json", "", "write raw result json here")
+	flagMaxPaths   = flag.Int("maxpaths", 4000, "path cap per unit")
+	flagVerbose    = flag.Bool("v", false, "verbose")
+	flagOverlay    = flag.String("overlay", "", "extra overlay json (mutants)")
+	flagNoCover    = flag.Bool("nocover", false, "skip vacuity checks")
 	flagEachSolver = flag.Bool("each-solver", false, "thorough: re-check every obligation on each solver")
 )
 
 type UnitResult struct {
-	Name        string          `json:"name"`
-	Kind        string          `json:"kind"` // contract | lemma | sweep
-	Target      string          `json:"target,omitempty"`
-	Props       []string        `json:"props"`
-	Paths       int             `json:"paths"`
-	PathsCut    bool            `json:"paths_cut,omitempty"`
-	Obligations []*OblResult    `json:"obligations"`
-	Unsupported []Unsupported   `json:"unsupported,omitempty"`
-	Cover       string          `json:"cover"`
-	Inlined     []string        `json:"inlined,omitempty"`
-	Opaque      []string        `json:"opaque,omitempty"`
-	Assumed     []string        `json:"assumed,omitempty"`
-	Trusted     []string        `json:"trusted_contracts,omitempty"`
+	Name          string        `json:"name"`
+	Kind          string        `json:"kind"` // contract | lemma | sweep
+	Target        string        `json:"target,omitempty"`
+	Props         []string      `json:"props"`
+	Paths         int           `json:"paths"`
+	PathsCut      bool          `json:"paths_cut,omitempty"`
+	Obligations   []*OblResult  `json:"obligations"`
+	Unsupported   []Unsupported `json:"unsupported,omitempty"`
+	Cover         string        `json:"cover"`
+	Inlined       []string      `json:"inlined,omitempty"`
+	Opaque        []string      `json:"opaque,omitempty"`
+	Assumed       []string      `json:"assumed,omitempty"`
+	Trusted       []string      `json:"trusted_contracts,omitempty"`
 	UsedContracts []string      `json:"used_contracts,omitempty"`
-	Writes      []string        `json:"writes,omitempty"`
-	WallMs      int64           `json:"wall_ms"`
-	Pos         string          `json:"pos,omitempty"`
+	Writes        []string      `json:"writes,omitempty"`
+	WallMs        int64         `json:"wall_ms"`
+	Pos           string        `json:"pos,omitempty"`
 }
 
 type OblResult struct {
@@ -372,13 +373,24 @@ func realMain() int {
 			}
 		}
 		if u.con != nil && !u.con.Lemma {
-			w := map[string]bool{}
-			for _, f := range finals {
-				for k := range f.dirty {
-					w[k] = true
+			ur.Writes = feasibleWrites(x, finals)
+			// a declared frame (verif:modifies) is an obligation of the function,
+			// not only an assumption of its callers
+			if u.con.Modifies != nil && !u.con.Trusted && u.con.Target != nil {
+				decl := map[string]bool{}
+				for _, m := range u.con.Modifies {
+					decl[m] = true
+				}
+				if !decl["*"] {
+					var outside []string
+					for _, k := range ur.Writes {
+						if !decl[k] {
+							outside = append(outside, k)
+						}
+					}
+					x.obligeStatic(newState(), "frame."+ur.Name+".declared", "frame", len(outside) == 0, u.con.Fn.Pos(), "writes outside the declared modifies set: "+strings.Join(outside, " "))
 				}
 			}
-			ur.Writes = sortedKeys(w)
 		}
 		ur.Obligations = groupObligations(x.obls)
 		if *flagDump != "" {
@@ -542,6 +554,91 @@ func relevantModel(m string) string {
 }
 
 // coverCheck: some complete path must be satisfiable (vacuity guard).
+// feasibleWrites: heap arrays written on some final path that is not provably
+// infeasible (a path whose condition the solver refutes writes nothing).
+func feasibleWrites(x *Run, finals []*State) []string {
+	var cand []*State
+	for _, f := range finals {
+		dead := false
+		for _, c := range f.pc {
+			if pcPlain(c) == "false" {
+				dead = true
+				break
+			}
+		}
+		if !dead && len(f.dirty) > 0 {
+			cand = append(cand, f)
+		}
+	}
+	// keys written on every candidate path need no solver: some path of the
+	// function is feasible (checked by the vacuity guard)
+	status := make([]int, len(cand)) // 0 unknown, 1 feasible, 2 infeasible
+	feasible := func(idx []int) {
+		var wg sync.WaitGroup
+		sem := make(chan struct{}, 16)
+		for _, i := range idx {
+			if status[i] != 0 {
+				continue
+			}
+			wg.Add(1)
+			go func(i int) {
+				defer wg.Done()
+				sem <- struct{}{}
+				defer func() { <-sem }()
+				var b strings.Builder
+				for _, l := range strings.Split(x.d.preamble(), "\n") {
+					if !strings.Contains(l, "(forall ") {
+						b.WriteString(l + "\n")
+					}
+				}
+				for _, c := range cand[i].pc {
+					if !strings.Contains(c, "(forall ") {
+						b.WriteString("(assert " + pcPlain(c) + ")\n")
+					}
+				}
+				r := solve(b.String(), 3, false, []string{"z3-new"})
+				if r.Status == "unsat" {
+					status[i] = 2
+				} else {
+					status[i] = 1
+				}
+			}(i)
+		}
+		wg.Wait()
+	}
+	byKey := map[string][]int{}
+	for i, f := range cand {
+		for k := range f.dirty {
+			byKey[k] = append(byKey[k], i)
+		}
+	}
+	w := map[string]bool{}
+	for _, k := range sortedKeys(byKey) {
+		idx := byKey[k]
+		if len(idx) == len(cand) {
+			w[k] = true
+			continue
+		}
+		found := false
+		for lo := 0; lo < len(idx) && !found; lo += 16 {
+			hi := lo + 16
+			if hi > len(idx) {
+				hi = len(idx)
+			}
+			feasible(idx[lo:hi])
+			for _, i := range idx[lo:hi] {
+				if status[i] == 1 {
+					found = true
+				}
+			}
+		}
+		if found {
+			w[k] = true
+		}
+	}
+	return sortedKeys(w)
+}
+
 func coverCheck(x *Run, finals []*State) string {
 	if len(finals) == 0 {
 		return "none"
